@@ -10,6 +10,7 @@ func vNondetInt() int           { return 0 }
 func vNondetInt64() int64       { return 0 }
 func vNondetUint64() uint64     { return 0 }
 func vNondetUint32() uint32     { return 0 }
+func vNondetInt32() int32       { return 0 }
 func vNondetUint16() uint16     { return 0 }
 func vNondetByte() byte         { return 0 }
 func vNondetBool() bool         { return false }
